@@ -55,3 +55,45 @@ OBLIGATIONS = [
                     "enforces the key tables of the specification (record-kind keys, prov:* formal keys per kind, '$'/'type'/'lang' objects)",
                bounds="as C01.structure", assumptions=_ASSUME, functions=_FUNCS, budget_s=(150, 600), per_path_s=(20, 40)),
 ]
+
+
+# ---- PROV-XML: real writer (lxml) + independent reader (xml.etree, from the PROV-XML note) -----------------------
+
+def xml_values(ctx):
+    import harness.c02 as X
+
+    stub_logging_str(ctx)
+    P = ctx.params
+    d = DS.values_doc(ctx, P["attr"], P["vk"], P["ns"], P["bundle"], strlen=P.get("strlen", 2), text_kind="text")
+    X.xml_guards(ctx, d, P)
+    X._check(ctx, d, independent=True)
+
+
+def xml_structure(ctx):
+    import harness.c02 as X
+
+    stub_logging_str(ctx)
+    P = ctx.params
+    X._check(ctx, DS.structure_doc(ctx, P["kind"], P.get("second"), P.get("bundle", False)), independent=True)
+
+
+def _xml_value_shards(tier):
+    import harness.c02 as X
+
+    return X._value_shards(tier)
+
+
+_XFUNCS = ["prov.serializers.provxml.ProvXMLSerializer.serialize/serialize_bundle/_derive_record_label", "prov.model.sorted_attributes",
+           "oracles.provxml_reader (independent, xml.etree.ElementTree, from the PROV-XML note: element names, prov:id/prov:ref, xsi:type/xml:lang, schema child order)"]
+
+OBLIGATIONS += [
+    Obligation(name="xml_values", fn=xml_values, shards=_xml_value_shards,
+               desc="Stage A exhausts the XML writer's paths (as C02.values); every witness is written by the real writer and read by an independent PROV-XML reader "
+                    "that also enforces document/bundleContent structure, prov:ref on reference children and the schema's child order; strict comparison, force_types both",
+               bounds="as C02.values", assumptions=_ASSUME, functions=_XFUNCS, shims=["lxml crossed in Stage B only"], best_verdict="PATH_COMPLETE",
+               budget_s=(200, 600), per_path_s=(30, 60)),
+    Obligation(name="xml_structure", fn=xml_structure, shards=_structure_shards,
+               desc="same for the 18 record kinds x presence masks x identified/anonymous x repeated identifiers x documents/bundles x force_types",
+               bounds="as C02.structure", assumptions=_ASSUME, functions=_XFUNCS, shims=["lxml crossed in Stage B only"], best_verdict="PATH_COMPLETE",
+               budget_s=(200, 600), per_path_s=(30, 60)),
+]
